@@ -1,5 +1,6 @@
 import Scion.Model.Stores
 import Scion.Proofs.Stores
+import Scion.Gen.StoresFacts
 /-!
 # C27 — Beacon and path databases behave like their abstract stores
 
@@ -438,6 +439,30 @@ theorem beacon_cleanup_exact (s : BeaconStore) (now : Nat) :
   refine ⟨?_, ?_⟩
   · intro r; simp [deleteExpiredBeacons, List.mem_filter]
   · simp [deleteExpiredBeacons, List.countP_eq_length_filter]
+
+/-! ## T3: the decisive comparisons as they stand in the source (regenerated on every run) -/
+
+private def expectedNextQuerySQL : String :=
+  "INSERT OR REPLACE INTO NextQuery (SrcIsdID, SrcAsID, DstIsdID, DstAsID, NextQuery) SELECT data.* FROM (SELECT ? AS SrcIsdID, ? AS SrcAsID, ? AS DstIsdID, ? AS DstAsID, ? AS lq) AS data LEFT JOIN NextQuery USING (SrcIsdID, SrcAsID, DstIsdID, DstAsID) WHERE data.lq > NextQuery.NextQuery OR NextQuery.DstIsdID IS NULL;"
+
+private def expectedCandidatesSQL : String :=
+  "SELECT b.Beacon, b.InIntfID FROM Beacons b WHERE ( b.Usage & ?1 ) == ?1 %s ORDER BY b.HopsLength ASC LIMIT ?2"
+
+/-- version rule, interface refresh rule, expiry and next-query comparisons, candidate order:
+    the operators the model transcribes are the ones in the source -/
+theorem gen_store_decisions :
+    Scion.Gen.StoresFacts.pathInsertConds = ["meta == nil", "newLastHopVersion <= oldLastHopVersion"] ∧
+    Scion.Gen.StoresFacts.pathUpdateConds = ["!bytes.Equal(newFullID, meta.FullID)"] ∧
+    Scion.Gen.StoresFacts.pathDeleteExpiredSQL = ["DELETE FROM Segments WHERE MaxExpiry < ?"] ∧
+    Scion.Gen.StoresFacts.pathDeleteSegmentSQL = ["DELETE FROM Segments WHERE hex(SegID) LIKE ?"] ∧
+    Scion.Gen.StoresFacts.pathInsertNextQuerySQL = [expectedNextQuerySQL] ∧
+    Scion.Gen.StoresFacts.beaconInsertConds =
+      ["meta != nil", "b.Segment.Info.Timestamp.After(meta.InfoTime)"] ∧
+    Scion.Gen.StoresFacts.beaconCandidatesSQL =
+      ["AND StartIsd == ?4 AND StartAs == ?5", expectedCandidatesSQL] ∧
+    Scion.Gen.StoresFacts.beaconDeleteExpiredSQL = ["DELETE FROM Beacons WHERE ExpirationTime < ?"] := by
+  refine ⟨by decide, by decide, by decide, by decide, by decide +kernel, by decide,
+    by decide +kernel, by decide⟩
 
 /-! ## Non-vacuity -/
 
